@@ -263,7 +263,7 @@ func (r *recordIter) setIntColumnMeta(timeColVals *record.ColVal, idx int, rec *
 		return
 	}
 
-	var minV, maxV, minVTime, maxVTime, sumV, countV int64
+	var minV, maxV, minVTime, maxVTime, lastVTime, sumV, countV int64
 	var colIndex, lastIndex, firstIndex, minIndex, maxIndex int
 	nilCount := 0
 	colIndex = -1
@@ -302,9 +302,10 @@ func (r *recordIter) setIntColumnMeta(timeColVals *record.ColVal, idx int, rec *
 
 		sumV += cols[index-nilCount]
 		lastIndex = colIndex
+		lastVTime = timeCol
 	}
 
-	rec.ColMeta[idx].SetLast(cols[lastIndex], timeCols[len(timeCols)-1])
+	rec.ColMeta[idx].SetLast(cols[lastIndex], lastVTime)
 	swapFirstLastIfDescending(&rec.ColMeta[idx], timeCols)
 	rec.ColMeta[idx].SetMin(minV, minVTime)
 	rec.ColMeta[idx].SetMax(maxV, maxVTime)
@@ -326,7 +327,7 @@ func (r *recordIter) setBoolColumnMeta(timeColVals *record.ColVal, idx int, rec 
 		return
 	}
 
-	var minVTime, maxVTime, countV int64
+	var minVTime, maxVTime, lastVTime, countV int64
 	var minV, maxV bool
 	var colIndex, lastIndex, firstIndex, minIndex, maxIndex int
 	nilCount := 0
@@ -365,9 +366,10 @@ func (r *recordIter) setBoolColumnMeta(timeColVals *record.ColVal, idx int, rec 
 			maxIndex = index
 		}
 		lastIndex = colIndex
+		lastVTime = timeCol
 	}
 
-	rec.ColMeta[idx].SetLast(cols[lastIndex], timeCols[len(timeCols)-1])
+	rec.ColMeta[idx].SetLast(cols[lastIndex], lastVTime)
 	swapFirstLastIfDescending(&rec.ColMeta[idx], timeCols)
 	rec.ColMeta[idx].SetMin(minV, minVTime)
 	rec.ColMeta[idx].SetMax(maxV, maxVTime)
@@ -388,7 +390,7 @@ func (r *recordIter) setFloatColumnMeta(timeColVals *record.ColVal, idx int, rec
 		return
 	}
 
-	var minVTime, maxVTime, countV int64
+	var minVTime, maxVTime, lastVTime, countV int64
 	var minV, maxV, sumV float64
 	var colIndex, lastIndex, firstIndex, minIndex, maxIndex int
 	nilCount := 0
@@ -429,9 +431,10 @@ func (r *recordIter) setFloatColumnMeta(timeColVals *record.ColVal, idx int, rec
 
 		sumV += cols[index-nilCount]
 		lastIndex = colIndex
+		lastVTime = timeCol
 	}
 
-	rec.ColMeta[idx].SetLast(cols[lastIndex], timeCols[len(timeCols)-1])
+	rec.ColMeta[idx].SetLast(cols[lastIndex], lastVTime)
 	swapFirstLastIfDescending(&rec.ColMeta[idx], timeCols)
 	rec.ColMeta[idx].SetMin(minV, minVTime)
 	rec.ColMeta[idx].SetMax(maxV, maxVTime)
@@ -457,7 +460,7 @@ func (r *recordIter) setStringColumnMeta(timeColVals *record.ColVal, idx int, re
 	nilCount := 0
 	colIndex = -1
 	lastIndex, firstIndex = -1, -1
-	var countV int64
+	var countV, lastVTime int64
 	countV = 0
 	for index, timeCol := range timeCols {
 		if colVals.IsNil(index) {
@@ -472,9 +475,10 @@ func (r *recordIter) setStringColumnMeta(timeColVals *record.ColVal, idx int, re
 		}
 
 		lastIndex = colIndex
+		lastVTime = timeCol
 	}
 
-	rec.ColMeta[idx].SetLast(cols[lastIndex], timeCols[len(timeCols)-1])
+	rec.ColMeta[idx].SetLast(cols[lastIndex], lastVTime)
 	swapFirstLastIfDescending(&rec.ColMeta[idx], timeCols)
 	rec.ColMeta[idx].SetCount(countV)
 	setColValInAux(timeColVals, idx, ops, rec, -1, firstIndex, -1, lastIndex)
